@@ -131,9 +131,10 @@ def run(ctx):
     ctx.decided += [
         'C19.a emitted QASM of the table-defined gate families == gate matrix up to global phase (probe exponents/shifts; qelib1 semantics held in the checker)',
         'C19.b every mnemonic in every _qasm_ format string exists in qelib1/stdgates with that parameter and operand count; operands distinct; angles printed as half turns',
+        'C19.d two-qubit KAK fallback core == exp(i(xXX+yYY+zZZ)) up to phase; classical registers as wide as the widest measurement of their key',
         'C19.c version validated before emitting; the program writer emits, decomposes, falls back or raises for every operation; measurement inversion lines are symmetric',
     ]
-    ctx.not_decided += ['u3/KAK fallback numerics (QasmUGate/QasmTwoQubitGate)', 'register layout and bit order', 'classical conditions', 'precision of printed angles']
+    ctx.not_decided += ['QasmUGate angle extraction and the KAK decomposition itself (cirq.linalg)', 'register layout and bit order', 'classical conditions', 'precision of printed angles']
 
     # ------------------------------------------------------------------ C19.a
     ctx.rule('C19.a', 'semantic agreement: for each class with literal eigen-components and a _qasm_ method, and each probe (exponent, global_shift), '
@@ -216,6 +217,93 @@ def run(ctx):
         atoms = ' '.join(ast.unparse(a) for a, pol in _da(co.mod.parents(), start, cq_) if pol)
         okg = 'exponent == 1' in atoms and 'global_shift == 0' in atoms and 'len(self._controls) == 1' in atoms and 'ProductOfSums(((1,),))' in atoms
         ctx.ob('C19.a', f'{co.qual}._qasm_:guards', okg, '' if okg else 'the cx/cy/cz/ch short-cut is not restricted to exponent 1, zero global shift and a single control on |1>', co.mod.rel, cq_.lineno)
+
+    # ------------------------------------------------------------------ C19.d
+    ctx.rule('C19.d', 'fallbacks and registers (finite-domain interpretation): the entangling core emitted by QasmTwoQubitGate._decompose_ for KAK '
+             'coefficients (x,y,z) equals exp(i(x XX + y YY + z ZZ)) up to global phase; _generate_cregs declares for every key the width of its widest measurement', floor=2, style='FDX')
+    from . import decomp
+    qt = repo.cls('cirq.circuits.qasm_output.QasmTwoQubitGate')
+    dfn = qt.methods.get('_decompose_')
+    if dfn is None:
+        raise AnalysisError('QasmTwoQubitGate._decompose_ vanished')
+    XX_, YY_, ZZ_ = np.kron(X, X), np.kron(Y, Y), np.kron(Z, Z)
+    bad = None
+    for xyz in ((0.3, 0.2, 0.1), (0.7, 0.1, -0.05), (0.25, 0.25, 0.0), (0.6, 0.0, 0.0), (0.2, -0.15, 0.33)):
+        ident = np.eye(2)
+        kak = {'interaction_coefficients': xyz, 'single_qubit_operations_before': (ident, ident), 'single_qubit_operations_after': (ident, ident)}
+        self_obj = {'kak': kak}
+        attr_hook, call_hook, name_lookup = decomp.make_env_hooks(repo, qt, dfn, self_obj)
+
+        def call2(call, it, call_hook=call_hook):
+            s_ = ast.unparse(call.func)
+            if s_.endswith('from_matrix'):
+                return decomp.GateV(None, kind='identity', n=1)
+            return call_hook(call, it)
+        it = decomp.GenInterp({'self': self_obj, 'qubits': (decomp.Q(0), decomp.Q(1))}, call_hook=call2, attr_hook=attr_hook)
+        base_ev = it.ev
+
+        def ev(node, it=it, base_ev=base_ev, name_lookup=name_lookup):
+            if isinstance(node, ast.Name) and node.id not in it.env and node.id not in it.builtins:
+                g = name_lookup(node.id)
+                if g is not NotImplemented:
+                    return g
+            return base_ev(node)
+        it.ev = ev
+        base_attr = it.attr_hook
+
+        def attr2(node, itp, base_attr=base_attr):
+            r_ = base_attr(node, itp)
+            if r_ is not NotImplemented:
+                return r_
+            try:
+                v_ = itp.ev(node.value)
+            except fdx.Unsupported:
+                return NotImplemented
+            if isinstance(v_, (decomp.GateV, decomp.OpV, decomp.Q)) and hasattr(v_, node.attr):
+                return getattr(v_, node.attr)
+            return NotImplemented
+        it.attr_hook = attr2
+        try:
+            it.call(dfn)
+        except (fdx.Unsupported, fdx.Raised) as ex:
+            raise AnalysisError(f'cannot interpret QasmTwoQubitGate._decompose_: {ex}')
+        ops_ = []
+        decomp._flatten(it.out, ops_)
+        cache = {}
+        u = np.eye(4, dtype=complex)
+        for op in ops_:
+            mtx = decomp.gate_matrix(repo, cache, op.gate)
+            if op.gate.kind == 'identity':
+                continue
+            u = _embed(mtx, [q.idx for q in op.qubits], 2) @ u
+        from scipy.linalg import expm
+        want = expm(1j * (xyz[0] * XX_ + xyz[1] * YY_ + xyz[2] * ZZ_))
+        ov = abs(np.trace(want.conj().T @ u)) / 4
+        if abs(ov - 1) > 1e-8:
+            bad = bad or f'for KAK coefficients {xyz} the emitted core is not exp(i(xXX+yYY+zZZ)) (overlap {ov:.4f})'
+    ctx.ob('C19.d', f'{qt.qual}._decompose_:kak-core', bad is None, bad or '', qt.mod.rel, dfn.lineno)
+    qo_ = repo.cls('cirq.circuits.qasm_output.QasmOutput')
+    gc = qo_.methods.get('_generate_cregs')
+    if gc is None:
+        raise AnalysisError('QasmOutput._generate_cregs vanished')
+    bad = None
+    for widths in ((2, 1), (1, 2), (2, 1, 3), (3, 3, 1), (1,), (2, 3, 2)):
+        meas = [{'qubits': list(range(w)), 'key': 'k'} for w in widths]
+        self_obj = {'measurements': meas, 'meas_comments': {'k': None}}
+
+        def hook(call, it):
+            if ast.unparse(call.func).endswith('measurement_key_name'):
+                return it.ev(call.args[0])['key']
+            return NotImplemented
+        it = fdx.NumInterp({'self': self_obj, 'meas_key_id_map': {'k': 'm_k'}}, call_hook=hook)
+        try:
+            res = it.call(gc)
+        except (fdx.Unsupported, fdx.Raised) as ex:
+            raise AnalysisError(f'cannot interpret QasmOutput._generate_cregs: {ex}')
+        got = res.get('m_k', (None,))[0]
+        if got != max(widths):
+            bad = bad or f'measurements of widths {widths} under one key declare a register of {got} bit(s)'
+    ctx.ob('C19.d', f'{qo_.qual}._generate_cregs:max-width', bad is None, bad or '', qo_.mod.rel, gc.lineno)
 
     # ------------------------------------------------------------------ C19.b
     ctx.rule('C19.b', 'vocabulary: every instruction in a literal format string passed to args.format inside any _qasm_ method uses a qelib1/stdgates '
